@@ -6,6 +6,7 @@ import (
 	"fmt"
 	"go/token"
 	"go/types"
+	"sort"
 
 	"golang.org/x/tools/go/ssa"
 )
@@ -473,6 +474,7 @@ func ruleStoreNonEmpty(c *Ctx) {
 				}
 			}
 			guarded := false
+			emptySideKeeps := false
 			for _, b := range fn.Blocks {
 				ifi, ok := b.Instrs[len(b.Instrs)-1].(*ssa.If)
 				if !ok {
@@ -500,10 +502,20 @@ func ruleStoreNonEmpty(c *Ctx) {
 				}
 				if nonZeroSucc != nil && len(nonZeroSucc.Preds) == 1 && (nonZeroSucc == st.Block() || nonZeroSucc.Dominates(st.Block())) {
 					guarded = true
+					// the empty side removes the destination on every path (whatever it held before)
+					zeroSucc := b.Succs[0]
+					if zeroSucc == nonZeroSucc {
+						zeroSucc = b.Succs[1]
+					}
+					if !mustRemoveKey(c, zeroSucc, nonZeroSucc) {
+						emptySideKeeps = true
+					}
 				}
 			}
-			if guarded {
-				c.S.OK("R-store-nonempty", key, c.Pos(st.Pos()), "installed only when its count is not zero")
+			if guarded && emptySideKeeps {
+				c.S.Bad("R-store-nonempty", key, c.Pos(st.Pos()), fmt.Sprintf("%s: when the computed aggregate is empty some path returns without removing the destination from the keyspace: the old value (of whatever type) survives a STORE whose result is empty", fnName(fn)))
+			} else if guarded {
+				c.S.OK("R-store-nonempty", key, c.Pos(st.Pos()), "installed only when its count is not zero; the empty side removes the destination")
 			} else {
 				c.S.Bad("R-store-nonempty", key, c.Pos(st.Pos()), fmt.Sprintf("%s installs a computed %s as payload without testing that it is not empty: an empty result leaves an empty key behind", fnName(fn), p.Elem().String()))
 			}
@@ -617,4 +629,392 @@ func ruleSelfMove(c *Ctx) {
 	if n == 0 {
 		c.S.Undecided("R-C05-self-move", "instances", "-", "no function moves a member between the dictionaries of two key names (SMOVE expected)")
 	}
+}
+
+const textDictReaders = "R-dict-readers-pure: a method of the dictionary that writes its storage — an element of the bucket array, the bucket field itself, the element count, or an append into a slice sharing the bucket array (buckets[:0]) — is one of the insert/remove primitives or is reachable only from them (rehash); lookups, iterators, random picks and clones never modify the table they read (HRANDFIELD, SRANDMEMBER, HGETALL… are read-only commands)"
+
+func ruleDictReadersPure(c *Ctx) {
+	c.S.Rule("R-dict-readers-pure", textDictReaders, 5)
+	mm := c.M.Muts()
+	fBuckets, fCount := c.Field("redisDict", "buckets"), c.Field("redisDict", "count")
+	if fBuckets == nil || fCount == nil {
+		c.S.Undecided("R-dict-readers-pure", "anchors", "-", "redisDict.buckets / count not found")
+		return
+	}
+	sharesBuckets := func(v ssa.Value) bool {
+		for i := 0; i < 4; i++ {
+			if _, f := loadedField(v); f == fBuckets {
+				return true
+			}
+			sl, ok := v.(*ssa.Slice)
+			if !ok {
+				return false
+			}
+			v = sl.X
+		}
+		return false
+	}
+	writes := map[*ssa.Function]string{}
+	var methods []*ssa.Function
+	for _, fn := range c.SrcFuncs() {
+		if fn.Signature.Recv() == nil || !c.isPkgType(fn.Signature.Recv().Type(), "redisDict") || len(fn.Params) == 0 {
+			continue
+		}
+		methods = append(methods, fn)
+		recv := fn.Params[0]
+		for _, in := range instrsOf(fn) {
+			switch x := in.(type) {
+			case *ssa.Store:
+				if ia, ok := x.Addr.(*ssa.IndexAddr); ok && sharesBuckets(ia.X) {
+					if base, _ := loadedField(stripSlices(ia.X)); base == ssa.Value(recv) {
+						writes[fn] = "stores into an element of the receiver's bucket array"
+					}
+				}
+				if fa, ok := x.Addr.(*ssa.FieldAddr); ok && fa.X == ssa.Value(recv) && (fieldOf(fa) == fBuckets || fieldOf(fa) == fCount) {
+					writes[fn] = "assigns the receiver's " + fieldOf(fa).Name()
+				}
+			case *ssa.Call:
+				if b, ok := x.Call.Value.(*ssa.Builtin); ok && b.Name() == "append" && len(x.Call.Args) > 0 {
+					if aliasesBuckets(x.Call.Args[0], recv, sharesBuckets, map[ssa.Value]bool{}) {
+						writes[fn] = "appends into a slice that shares the receiver's bucket array"
+					}
+				}
+			}
+		}
+	}
+	prim := func(f *ssa.Function) bool { return mm.dictStore[f] || mm.dictRem[f] }
+	// allowed writers: primitives, and writers all of whose callers are allowed writers
+	allowed := map[*ssa.Function]bool{}
+	for f := range writes {
+		if prim(f) {
+			allowed[f] = true
+		}
+	}
+	for changed := true; changed; {
+		changed = false
+		for f := range writes {
+			if allowed[f] {
+				continue
+			}
+			node := c.CG.Nodes[f]
+			if node == nil || len(node.In) == 0 {
+				continue
+			}
+			ok := true
+			for _, e := range node.In {
+				if !allowed[e.Caller.Func] {
+					ok = false
+				}
+			}
+			if ok {
+				allowed[f] = true
+				changed = true
+			}
+		}
+	}
+	sort.Slice(methods, func(i, j int) bool { return fnName(methods[i]) < fnName(methods[j]) })
+	for _, fn := range methods {
+		key := fnName(fn) + ":storage"
+		why, w := writes[fn]
+		switch {
+		case !w:
+			c.S.OK("R-dict-readers-pure", key, c.Pos(fn.Pos()), "does not write the table")
+		case allowed[fn]:
+			c.S.OK("R-dict-readers-pure", key, c.Pos(fn.Pos()), "an insert/remove primitive, or reachable only from them")
+		default:
+			c.S.Bad("R-dict-readers-pure", key, c.Pos(fn.Pos()), fmt.Sprintf("%s %s although it is not an insert/remove primitive and is called from outside them: a read of the hash or set corrupts the table (fields become unreachable or are listed twice)", fnName(fn), why))
+		}
+	}
+}
+
+func stripSlices(v ssa.Value) ssa.Value {
+	for i := 0; i < 4; i++ {
+		sl, ok := v.(*ssa.Slice)
+		if !ok {
+			return v
+		}
+		v = sl.X
+	}
+	return v
+}
+
+// aliasesBuckets: v is (through slicing, phis and local variable cells) a slice of the receiver's bucket array.
+func aliasesBuckets(v ssa.Value, recv ssa.Value, shares func(ssa.Value) bool, seen map[ssa.Value]bool) bool {
+	if v == nil || seen[v] {
+		return false
+	}
+	seen[v] = true
+	switch x := v.(type) {
+	case *ssa.Slice:
+		if shares(x.X) {
+			base, _ := loadedField(stripSlices(x.X))
+			return base == recv
+		}
+		return aliasesBuckets(x.X, recv, shares, seen)
+	case *ssa.Phi:
+		for _, e := range x.Edges {
+			if aliasesBuckets(e, recv, shares, seen) {
+				return true
+			}
+		}
+	case *ssa.UnOp:
+		if al, ok := x.X.(*ssa.Alloc); ok {
+			for _, r := range referrers(al) {
+				if st, ok := r.(*ssa.Store); ok && st.Addr == ssa.Value(al) && aliasesBuckets(st.Val, recv, shares, seen) {
+					return true
+				}
+			}
+		}
+	case *ssa.Call:
+		// append(x, ...) may return x's array
+		if b, ok := x.Call.Value.(*ssa.Builtin); ok && b.Name() == "append" && len(x.Call.Args) > 0 {
+			return aliasesBuckets(x.Call.Args[0], recv, shares, seen)
+		}
+	}
+	return false
+}
+
+// mustRemoveKey: every path from `from` to a return (not entering `avoid`) passes a removal from the keyspace dictionary.
+func mustRemoveKey(c *Ctx, from, avoid *ssa.BasicBlock) bool {
+	mm := c.M.Muts()
+	removes := func(b *ssa.BasicBlock) bool {
+		for _, in := range b.Instrs {
+			call, ok := in.(ssa.CallInstruction)
+			if !ok {
+				continue
+			}
+			cal := call.Common().StaticCallee()
+			if cal != nil && mm.dictRem[cal] && len(call.Common().Args) > 0 {
+				if _, rf := loadedField(call.Common().Args[0]); rf == mm.fKeyspace {
+					return true
+				}
+			}
+		}
+		return false
+	}
+	seen := map[*ssa.BasicBlock]bool{}
+	stack := []*ssa.BasicBlock{from}
+	for len(stack) > 0 {
+		b := stack[len(stack)-1]
+		stack = stack[:len(stack)-1]
+		if seen[b] || b == avoid {
+			continue
+		}
+		seen[b] = true
+		if removes(b) {
+			continue
+		}
+		if _, ok := b.Instrs[len(b.Instrs)-1].(*ssa.Return); ok {
+			return false
+		}
+		stack = append(stack, b.Succs...)
+	}
+	return true
+}
+
+const textSameKeyOrder = "R-same-key-order: in a function that takes two key names, the removal of one name from the keyspace never follows the store under the other name unless the two names are compared: with source = destination the store overwrites the entry with the same object and the removal then deletes the key (RENAME k k)"
+
+func ruleSameKeyOrder(c *Ctx) {
+	c.S.Rule("R-same-key-order", textSameKeyOrder, 1)
+	mm := c.M.Muts()
+	n := 0
+	for _, fn := range c.SrcFuncs() {
+		type ksCall struct {
+			call ssa.CallInstruction
+			key  *ssa.Parameter
+		}
+		var stores, removes []ksCall
+		for _, in := range instrsOf(fn) {
+			call, ok := in.(ssa.CallInstruction)
+			if !ok {
+				continue
+			}
+			cal := call.Common().StaticCallee()
+			if cal == nil || len(call.Common().Args) < 2 || !(mm.dictStore[cal] || mm.dictRem[cal]) {
+				continue
+			}
+			if _, rf := loadedField(call.Common().Args[0]); rf != mm.fKeyspace {
+				continue
+			}
+			p, ok := call.Common().Args[1].(*ssa.Parameter)
+			if !ok {
+				continue
+			}
+			if mm.dictStore[cal] {
+				stores = append(stores, ksCall{call, p})
+			} else {
+				removes = append(removes, ksCall{call, p})
+			}
+		}
+		if len(stores) == 0 || len(removes) == 0 {
+			continue
+		}
+		for _, s := range stores {
+			for _, r := range removes {
+				if s.key == r.key {
+					continue
+				}
+				n++
+				key := fmt.Sprintf("%s:store(%s)/remove(%s)", fnName(fn), s.key.Name(), r.key.Name())
+				after := (s.call.Block() == r.call.Block() && instrIndex(r.call) > instrIndex(s.call)) ||
+					(s.call.Block() != r.call.Block() && plainReachAvoid(s.call.Block(), r.call.Block(), nil))
+				compared := false
+				for _, in := range instrsOf(fn) {
+					if bo, ok := in.(*ssa.BinOp); ok && (bo.Op == token.EQL || bo.Op == token.NEQ) {
+						if (bo.X == ssa.Value(s.key) && bo.Y == ssa.Value(r.key)) || (bo.X == ssa.Value(r.key) && bo.Y == ssa.Value(s.key)) {
+							compared = true
+						}
+					}
+				}
+				if after && !compared {
+					c.S.Bad("R-same-key-order", key, c.Pos(r.call.Pos()), fmt.Sprintf("%s removes %s from the keyspace after it stored under %s and never compares the two names: with both equal the key is lost", fnName(fn), r.key.Name(), s.key.Name()))
+				} else {
+					c.S.OK("R-same-key-order", key, c.Pos(r.call.Pos()), "the source name is removed before the destination is stored (or the names are compared)")
+				}
+			}
+		}
+	}
+	if n == 0 {
+		c.S.Undecided("R-same-key-order", "instances", "-", "no function stores and removes keyspace entries under two different name parameters (the rename primitive was expected)")
+	}
+}
+
+const textReplaceTTL = "R-replace-clears-ttl: a command that replaces the value of a key never does so by assigning a new payload to the existing key object while leaving its deadline alone: a payload stored into a key object that was not created by the storing function either derives from that object's own previous payload (an in-place change keeps the deadline) or is accompanied by a store of the object's expiresAt — SET, GETSET, MSET, the STORE forms and BITOP clear the deadline of the destination"
+
+func ruleReplaceClearsTTL(c *Ctx) {
+	c.S.Rule("R-replace-clears-ttl", textReplaceTTL, 8)
+	fPay, fExp := c.Field("storeKey", "payload"), c.Field("storeKey", "expiresAt")
+	if fPay == nil || fExp == nil {
+		c.S.Undecided("R-replace-clears-ttl", "anchor", "-", "storeKey.payload / expiresAt not found")
+		return
+	}
+	o := &ownCtx{c: c, memo: map[string]int{}, fPay: fPay, seen: map[ssa.Value]bool{}}
+	dead := map[string]bool{}
+	for _, d := range c.M.Muts().dead {
+		dead[d] = true
+	}
+	for _, fn := range c.SrcFuncs() {
+		if dead[fnName(fn)] {
+			continue
+		}
+		if _, ex := m6Exempt[fnName(fn)]; ex {
+			continue
+		}
+		n := 0
+		for _, in := range instrsOf(fn) {
+			st, ok := isStoreTo(in, fPay)
+			if !ok {
+				continue
+			}
+			n++
+			key := fmt.Sprintf("%s:payload#%d", fnName(fn), n)
+			fa := st.Addr.(*ssa.FieldAddr)
+			if freshKeyObject(fa.X) {
+				c.S.Trivial("R-replace-clears-ttl", key, c.Pos(st.Pos()), "a key object created here: its deadline is whatever this function sets")
+				continue
+			}
+			// in-place: derived from the same object's payload
+			inPlace := derivesFromOwnPayload(st.Val, fa.X, fPay, 0)
+			_ = o
+			if inPlace {
+				c.S.OK("R-replace-clears-ttl", key, c.Pos(st.Pos()), "in-place change of the same key's value: the deadline is kept")
+				continue
+			}
+			setsTTL := false
+			for _, in2 := range instrsOf(fn) {
+				st2, ok := isStoreTo(in2, fExp)
+				if !ok {
+					continue
+				}
+				fa2 := st2.Addr.(*ssa.FieldAddr)
+				if sameBase(fa2.X, fa.X) && (instrDominates(in2, in) || instrDominates(in, in2)) {
+					setsTTL = true
+				}
+			}
+			if setsTTL {
+				c.S.OK("R-replace-clears-ttl", key, c.Pos(st.Pos()), "the deadline of the object is set together with the new payload")
+			} else {
+				c.S.Bad("R-replace-clears-ttl", key, c.Pos(st.Pos()), fmt.Sprintf("%s replaces the payload of an existing key object without touching its deadline: the new value inherits the TTL of the value it replaced and vanishes with it", fnName(fn)))
+			}
+		}
+	}
+}
+
+// freshKeyObject: the key object was created by this function (constructor call, allocation, clone).
+func freshKeyObject(v ssa.Value) bool {
+	if isFresh(v) {
+		return true
+	}
+	switch x := v.(type) {
+	case *ssa.Call:
+		if g := x.Call.StaticCallee(); g != nil && returnsFreshAlloc(g) {
+			return true
+		}
+	case *ssa.Phi:
+		for _, e := range x.Edges {
+			if !freshKeyObject(e) {
+				return false
+			}
+		}
+		return len(x.Edges) > 0
+	case *ssa.UnOp:
+		if al, ok := x.X.(*ssa.Alloc); ok {
+			k := 0
+			for _, r := range referrers(al) {
+				if st, ok := r.(*ssa.Store); ok && st.Addr == ssa.Value(al) {
+					k++
+					if !freshKeyObject(st.Val) {
+						return false
+					}
+				}
+			}
+			return k > 0
+		}
+	}
+	return false
+}
+
+// derivesFromOwnPayload: the value is computed from a load of sk.payload of the same key object.
+func derivesFromOwnPayload(v ssa.Value, sk ssa.Value, fPay *types.Var, d int) bool {
+	if d > 10 || v == nil {
+		return false
+	}
+	switch x := v.(type) {
+	case *ssa.MakeInterface:
+		return derivesFromOwnPayload(x.X, sk, fPay, d+1)
+	case *ssa.TypeAssert:
+		return derivesFromOwnPayload(x.X, sk, fPay, d+1)
+	case *ssa.Extract:
+		return derivesFromOwnPayload(x.Tuple, sk, fPay, d+1)
+	case *ssa.Slice:
+		return derivesFromOwnPayload(x.X, sk, fPay, d+1)
+	case *ssa.Convert:
+		return derivesFromOwnPayload(x.X, sk, fPay, d+1)
+	case *ssa.ChangeType:
+		return derivesFromOwnPayload(x.X, sk, fPay, d+1)
+	case *ssa.Phi:
+		for _, e := range x.Edges {
+			if derivesFromOwnPayload(e, sk, fPay, d+1) {
+				return true
+			}
+		}
+	case *ssa.Call:
+		for _, a := range x.Call.Args {
+			if derivesFromOwnPayload(a, sk, fPay, d+1) {
+				return true
+			}
+		}
+	case *ssa.UnOp:
+		if fa, ok := x.X.(*ssa.FieldAddr); ok && fieldOf(fa) == fPay {
+			return sameBase(fa.X, sk)
+		}
+		if al, ok := x.X.(*ssa.Alloc); ok {
+			for _, r := range referrers(al) {
+				if st, ok := r.(*ssa.Store); ok && st.Addr == ssa.Value(al) && derivesFromOwnPayload(st.Val, sk, fPay, d+1) {
+					return true
+				}
+			}
+		}
+	}
+	return false
 }
